@@ -1098,3 +1098,465 @@ theorem wrapOpsOf_entry (k : WrapKind) (ct : Str) (hct : ct ≠ []) (hk : k.regu
   | user u msg => exact simple_entry _ ct hct hk.1 hk.2.1 hk.2.2 wd d t
 
 end ErrModel
+
+namespace ErrModel
+
+/-! ### `%v` prints exactly Error() -/
+
+/-- the errors over regular ASCII text: every string a layer prints in one-line mode begins and ends
+    with a non-newline byte, has no two newlines in a row, is ASCII, and stored redactable strings
+    are well-formed; hidden parts and the branches of multi-cause nodes are unconstrained -/
+def RegE : Err → Prop
+  | .leaf _ k => k.regular
+  | .barrier _ m _ => RegR m.smsg
+  | .wrap _ k c => RegE c ∧ k.regular (errText c)
+  | .second _ c _ => RegE c
+  | .multi id k cs => Reg (errText (.multi id k cs))
+
+/-- the statement proved by induction: the entries of the sub-tree, stripped and laid out on one
+    line, are the Error() text, which is not empty -/
+structure VText (e : Err) (E : List Entry) : Prop where
+  good : ∀ en ∈ E, en.elideShort = false → GoodHead en
+  txt : txtOf E.reverse = errText e
+  ne : errText e ≠ []
+
+theorem VText_single (e : Err) (en : Entry) (h : EntryIs en (errText e)) (hne : errText e ≠ []) : VText e [en] := by
+  refine ⟨fun x hx _ => by simp at hx; subst hx; exact h.good hne, ?_, hne⟩
+  have hh : en.head ≠ [] := by intro h0; have := h.head; rw [h0] at this; simp at this; exact hne this
+  simp [txtOf, h.noElide, hh, h.head]
+
+/-- the Error() of a wrapper through the engine's own definition equals the compositional one,
+    once the cause's one-line rendering is its Error() text -/
+theorem errText_wrap (id : Ident) (k : WrapKind) (c : Err)
+    (hc : ∀ o wd d ls, stripT (singleLine false (ents false false c o wd d ls).1) = errText c) :
+    errText (.wrap id k c) = wrapText k (errText c) := by
+  cases k <;> simp [errText, wrapText, hc] <;> (try split) <;> simp_all [pfx]
+
+theorem multi_default_vtext (e : Err) (sub : List Entry) (t : Str) (ht : t = errText e) (hr : Reg t) (wd : Bool) (d : Nat) (ts : Str) :
+    VText e (markElided sub ++ [collect (runOps false (if t ≠ [] then [.plain t] else [])) false false wd d ts]) := by
+  subst ht
+  have ht : errText e = errText e := rfl
+  have hne : errText e ≠ [] := hr.ne
+  simp only [hne, ne_eq, not_false_eq_true, if_true]
+  have hE := entry_plain (errText e) hr false wd d ts
+  have hne' : errText e ≠ [] := hne
+  refine ⟨?_, ?_, hne'⟩
+  · intro x hx hxe
+    rcases List.mem_append.mp hx with h1 | h1
+    · exfalso
+      simp only [markElided, List.mem_map] at h1
+      obtain ⟨e0, _, rfl⟩ := h1
+      simp at hxe
+    · simp at h1; subst h1; exact hE.good hne
+  · rw [txtOf_snoc]
+    have hh : (collect (runOps false [.plain (errText e)]) false false wd d ts).head ≠ [] := by
+      intro h0; have := hE.head; rw [h0] at this; simp at this; exact hne this
+    simp [hE.noElide, hh, txtOf_markElided, hE.head]
+
+theorem v_text : (e : Err) → RegE e → ∀ (o wd : Bool) (d : Nat) (ls : Stack), VText e (ents false false e o wd d ls).1
+  | .leaf id k, h, o, wd, d, ls => by
+    obtain ⟨en, he, hen⟩ := ents_leaf_text id k h o wd d ls
+    rw [he]
+    exact VText_single _ en (by simpa [errText] using hen) (by simpa [errText] using h.1.ne)
+  | .barrier id m hd, h, o, wd, d, ls => by
+    unfold ents
+    have he := entry_safe [.pre m.smsg] (RegR.seg h) (by simpa [SegT.content] using h.reg) true wd d tnBarrier.tstr
+    have : barrierScript m [] false = [.safe [.pre m.smsg]] := by simp [barrierScript]
+    simp only [Bool.false_eq_true, if_false, this]
+    exact VText_single _ _ (by simpa [errText, SegT.content] using he) (by simpa [errText] using h.reg.ne)
+  | .wrap id k c, h, o, wd, d, ls => by
+    obtain ⟨hc, hk⟩ := h
+    have ihc : ∀ o wd d ls, VText c (ents false false c o wd d ls).1 := v_text c hc
+    have hsl : ∀ o wd d ls, stripT (singleLine false (ents false false c o wd d ls).1) = errText c := by
+      intro o wd d ls
+      rw [stripT_singleLine _ (ihc o wd d ls).good, (ihc o wd d ls).txt]
+    have hct : errText c ≠ [] := (ihc false wd (d + 1) ls).ne
+    have hew := errText_wrap id k c hsl
+    have ih := ihc false wd (d + 1) ls
+    have hwe := wrapOpsOf_entry k (errText c) hct hk wd d (Err.wrap id k c).ty.tstr
+    obtain ⟨w1, w2⟩ := withStackOf_head
+      (collect (runOps false (wrapOpsOf k false (errText c)).1) (wrapOpsOf k false (errText c)).2.2 false wd d (Err.wrap id k c).ty.tstr)
+      (ents false false c false wd (d + 1) ls).2 (wrapStackOf k)
+    unfold ents
+    simp only []
+    -- the entry of this layer
+    generalize hen : (withStackOf
+      (collect (runOps false (wrapOpsOf k false (errText c)).1) (wrapOpsOf k false (errText c)).2.2 false wd d (Err.wrap id k c).ty.tstr)
+      (ents false false c false wd (d + 1) ls).2 (wrapStackOf k)).1 = en at w1 w2 ⊢
+    generalize hcol : collect (runOps false (wrapOpsOf k false (errText c)).1) (wrapOpsOf k false (errText c)).2.2 false wd d (Err.wrap id k c).ty.tstr = ce at hwe w1 w2
+    have hgood : GoodHead en := by
+      rcases hwe.good with g | g
+      · exact Or.inl (by rw [w1]; exact g)
+      · exact Or.inr (by rw [w1]; exact g)
+    have hnel : en.elideShort = false := by rw [w2]; exact hwe.noElide
+    have htxt := hwe.txt
+    have hvis := hwe.vis
+    rw [← w1] at htxt hvis
+    refine ⟨?_, ?_, ?_⟩
+    · intro x hx hxe
+      rcases List.mem_append.mp hx with h1 | h1
+      · split at h1
+        · exfalso
+          simp only [markElided, List.mem_map] at h1
+          obtain ⟨e0, _, rfl⟩ := h1
+          simp at hxe
+        · exact ih.good x h1 hxe
+      · simp at h1; subst h1; exact hgood
+    · rw [txtOf_snoc]
+      simp only [hnel, Bool.false_eq_true, false_or]
+      rw [hew, ← htxt]
+      by_cases hel : (wrapOpsOf k false (errText c)).2.1 = true
+      · simp only [hel, if_true, txtOf_markElided]
+        by_cases hh : en.head = []
+        · have := hvis hh
+          rw [hel] at this; exact absurd this (by simp)
+        · simp [hh]
+      · have hel' : (wrapOpsOf k false (errText c)).2.1 = false := by simpa using hel
+        simp only [hel', Bool.false_eq_true, if_false, ih.txt]
+        by_cases hh : en.head = []
+        · simp [hh]
+        · simp [hh, hct]
+    · rw [hew, ← htxt]
+      by_cases hh : en.head = []
+      · have := hvis hh
+        simp [hh, this, hct]
+      · rcases hgood with g | g
+        · exact absurd g hh
+        · simp [hh, g]
+  | .second id c s, h, o, wd, d, ls => by
+    have ih := v_text c h false wd (d + 1) ls
+    unfold ents
+    simp only [Bool.false_eq_true, if_false]
+    have hs : secondScript [] false = [] := by simp [secondScript]
+    rw [hs]
+    obtain ⟨e1, e2⟩ := entry_none true wd d tnSecondary.tstr
+    refine ⟨?_, ?_, ?_⟩
+    · intro x hx hxe
+      rcases List.mem_append.mp hx with h1 | h1
+      · exact ih.good x h1 hxe
+      · simp at h1; subst h1; exact Or.inl e1
+    · rw [txtOf_snoc]; simp [e1, ih.txt, errText]
+    · simpa [errText] using ih.ne
+  | .multi id k cs, h, o, wd, d, ls => by
+    have hne : errText (.multi id k cs) ≠ [] := h.ne
+    unfold ents
+    simp only []
+    cases k with
+    | join =>
+      simp only []
+      -- the entry of a Join is built from the same buffer as its Error() text
+      have hb : ∀ (S : LState) (wd : Bool) (d : Nat) (t : Str),
+          stripT (collect S true false wd d t).head = stripT (collect S true true false 0 []).head ∧
+          (collect S true false wd d t).elideShort = false := by
+        intro S wd d t
+        unfold collect
+        by_cases hw : S.wantDetail = true <;> by_cases hd : S.hasDetail = true <;> simp [hw, hd, stripT_bytesT]
+      obtain ⟨b1, b2⟩ := hb (runOps false (joinScript (rendVL cs))) wd d (Err.multi id .join cs).ty.tstr
+      have hE : EntryIs (collect (runOps false (joinScript (rendVL cs))) true false wd d (Err.multi id .join cs).ty.tstr) (errText (.multi id .join cs)) :=
+        ⟨by rw [b1]; simp [errText], b2⟩
+      refine ⟨?_, ?_, hne⟩
+      · intro x hx hxe
+        rcases List.mem_append.mp hx with h1 | h1
+        · exfalso
+          simp only [markElided, List.mem_map] at h1
+          obtain ⟨e0, _, rfl⟩ := h1
+          simp at hxe
+        · simp at h1; subst h1; exact hE.good hne
+      · rw [txtOf_snoc]
+        have hh : (collect (runOps false (joinScript (rendVL cs))) true false wd d (Err.multi id .join cs).ty.tstr).head ≠ [] := by
+          intro h0; have := hE.head; rw [h0] at this; simp at this; exact hne this
+        simp [hE.noElide, hh, txtOf_markElided, hE.head]
+    | opaqueLeafCauses msg dd hid =>
+      simp only [leafScript, Bool.false_eq_true, if_false, List.append_nil, Option.getD_some]
+      have hr : Reg msg := by have := h; simp only [RegE, errText, multiText] at this; exact this
+      have hE := entry_safe [.arg msg] (by intro g hg; simp at hg; subst hg; exact hr.ascii) (by simpa [SegT.content] using hr) true wd d (Err.multi id (.opaqueLeafCauses msg dd hid) cs).ty.tstr
+      have hE' : EntryIs (collect (runOps false [.safe [.arg msg]]) true false wd d (Err.multi id (.opaqueLeafCauses msg dd hid) cs).ty.tstr) (errText (.multi id (.opaqueLeafCauses msg dd hid) cs)) := by
+        simpa [SegT.content, errText, multiText] using hE
+      refine ⟨?_, ?_, hne⟩
+      · intro x hx hxe
+        rcases List.mem_append.mp hx with h1 | h1
+        · exfalso
+          simp only [markElided, List.mem_map] at h1
+          obtain ⟨e0, _, rfl⟩ := h1
+          simp at hxe
+        · simp at h1; subst h1; exact hE'.good hne
+      · rw [txtOf_snoc]
+        have hh : (collect (runOps false [.safe [.arg msg]]) true false wd d (Err.multi id (.opaqueLeafCauses msg dd hid) cs).ty.tstr).head ≠ [] := by
+          intro h0; have := hE'.head; rw [h0] at this; simp at this; exact hne this
+        simp [hE'.noElide, hh, txtOf_markElided, hE'.head]
+    | stdJoin => exact multi_default_vtext _ _ _ (by simp [errText]) (by simpa [RegE, errText] using h) wd d _
+    | fmtWrapErrors m => exact multi_default_vtext _ _ _ (by simp [errText]) (by simpa [RegE, errText] using h) wd d _
+    | user u m => exact multi_default_vtext _ _ _ (by simp [errText]) (by simpa [RegE, errText] using h) wd d _
+
+end ErrModel
+
+namespace ErrModel
+
+/-! ### the plain rendering contains no marker token: its bytes are its stripped form -/
+
+def NoMarkers (t : Toks) : Prop := ∀ x ∈ t, x ≠ Tok.op ∧ x ≠ Tok.cl
+
+theorem NoMarkers_nil : NoMarkers [] := by intro x hx; simp at hx
+theorem NoMarkers_append {a b : Toks} (ha : NoMarkers a) (hb : NoMarkers b) : NoMarkers (a ++ b) := by
+  intro x hx; rcases List.mem_append.mp hx with h | h; exact ha x h; exact hb x h
+theorem NoMarkers_bytesT (s : Str) : NoMarkers (bytesT s) := by
+  intro x hx; simp [bytesT] at hx; obtain ⟨c, _, rfl⟩ := hx; simp
+theorem NoMarkers_bytesU (s : Str) : NoMarkers (bytesU s) := by
+  intro x hx; simp [bytesU] at hx; obtain ⟨c, _, rfl⟩ := hx; split <;> simp
+theorem NoMarkers_flatten {l : List Toks} (h : ∀ t ∈ l, NoMarkers t) : NoMarkers l.flatten := by
+  intro x hx; obtain ⟨t, ht, hxt⟩ := List.mem_flatten.mp hx; exact h t ht x hxt
+
+theorem unlex_noMarkers : (t : Toks) → NoMarkers t → unlex t = stripT t
+  | [], _ => rfl
+  | .op :: r, h => absurd rfl (h .op (by simp)).1
+  | .cl :: r, h => absurd rfl (h .cl (by simp)).2
+  | .b c :: r, h => by simp [unlex, unlex_noMarkers r (fun x hx => h x (by simp [hx]))]
+  | .u c :: r, h => by simp [unlex, unlex_noMarkers r (fun x hx => h x (by simp [hx]))]
+
+structure LState.NM (s : LState) : Prop where
+  buf : NoMarkers s.buf
+  head : NoMarkers s.headBuf
+
+theorem writeLoop_NM : (rest : Toks) → (s : LState) → (chunk : Toks) → s.NM → NoMarkers chunk → NoMarkers rest →
+    (writeLoop s chunk rest).NM
+  | [], s, chunk, hs, hc, _ => by
+    unfold writeLoop; exact ⟨NoMarkers_append hs.buf hc, hs.head⟩
+  | x :: r, s, chunk, hs, hc, hr => by
+    have hx := hr x (by simp)
+    have hr' : NoMarkers r := fun y hy => hr y (by simp [hy])
+    unfold writeLoop
+    split
+    · apply writeLoop_NM r _ [] _ NoMarkers_nil hr'
+      have hb : NoMarkers (s.buf ++ chunk) := NoMarkers_append hs.buf hc
+      split
+      · unfold LState.switchOver
+        split
+        · exact ⟨hb, hs.head⟩
+        · exact ⟨NoMarkers_nil, hb⟩
+      · exact ⟨hb, hs.head⟩
+    · apply writeLoop_NM r _ (chunk ++ [x]) _ (NoMarkers_append hc (by intro y hy; simp at hy; subst hy; exact hx)) hr'
+      have hsep : NoMarkers (if s.wantDetail then detailSep else nlTs) := by
+        split
+        · exact NoMarkers_bytesT _
+        · intro y hy; simp [nlTs, nlT] at hy; subst hy; simp
+      have hpad : NoMarkers (List.replicate (s.needNewline - 1) (if s.wantDetail then detailPad else [])).flatten := by
+        apply NoMarkers_flatten
+        intro t ht
+        rw [List.mem_replicate] at ht
+        rw [ht.2]
+        split
+        · exact NoMarkers_bytesT _
+        · exact NoMarkers_nil
+      split
+      · exact ⟨NoMarkers_append (NoMarkers_append hs.buf hpad) hsep, hs.head⟩
+      · split
+        · exact ⟨NoMarkers_append hs.buf (by intro y hy; simp at hy; subst hy; simp), hs.head⟩
+        · exact ⟨hs.buf, hs.head⟩
+
+def POp.isPlain : POp → Bool
+  | .safe _ => false
+  | _ => true
+
+theorem runOps_NM (detail : Bool) (ops : List POp) (h : ∀ op ∈ ops, op.isPlain = true) : (runOps detail ops).NM := by
+  unfold runOps
+  have : ∀ (l : List POp) (s : LState), s.NM → (∀ op ∈ l, op.isPlain = true) → (l.foldl runOp s).NM := by
+    intro l
+    induction l with
+    | nil => intro s hs _; exact hs
+    | cons op r ih =>
+      intro s hs hl
+      apply ih _ _ (fun x hx => hl x (by simp [hx]))
+      have hop := hl op (by simp)
+      cases op with
+      | safe segs => simp [POp.isPlain] at hop
+      | plain b =>
+        simp only [runOp, LState.write]
+        split
+        · exact hs
+        · exact writeLoop_NM _ s [] hs NoMarkers_nil (NoMarkers_bytesU b)
+      | detail =>
+        simp only [runOp, LState.detail, LState.switchOver]
+        split <;> split <;> first | exact ⟨hs.buf, hs.head⟩ | exact ⟨NoMarkers_nil, hs.buf⟩
+  exact this ops _ ⟨NoMarkers_nil, NoMarkers_nil⟩ h
+
+/-- in plain mode an entry holds no marker, provided a buffer that is not redactable was written
+    by plain operations only -/
+theorem collect_plain_NM (s : LState) (b wd : Bool) (d : Nat) (t : Str) (h : b = false → s.NM) :
+    NoMarkers (collect s b false wd d t).head ∧ NoMarkers (collect s b false wd d t).details := by
+  cases b with
+  | true => simp [collect]; exact ⟨NoMarkers_bytesT _, NoMarkers_bytesT _⟩
+  | false =>
+    have hs := h rfl
+    unfold collect
+    have hcat : NoMarkers ((if s.headBuf ≠ [] && s.headBuf.getLast? ≠ some nlT && s.buf ≠ [] && s.buf.head? ≠ some nlT
+        then s.headBuf ++ [nlT] else s.headBuf) ++ s.buf) := by
+      apply NoMarkers_append _ hs.buf
+      split
+      · exact NoMarkers_append hs.head (by intro y hy; simp [nlT] at hy; subst hy; simp)
+      · exact hs.head
+    by_cases hw : s.wantDetail = true <;> by_cases hd : s.hasDetail = true <;>
+      simp only [hw, hd, if_true, if_false, Bool.false_eq_true] <;>
+      first
+        | exact ⟨hs.head, hs.buf⟩
+        | exact ⟨hs.buf, NoMarkers_nil⟩
+        | exact ⟨hcat, NoMarkers_nil⟩
+
+end ErrModel
+
+namespace ErrModel
+
+structure Entry.NM (en : Entry) : Prop where
+  head : NoMarkers en.head
+  details : NoMarkers en.details
+
+theorem entry_NM (detail : Bool) (ops : List POp) (b wd : Bool) (d : Nat) (t : Str)
+    (h : b = false → ∀ op ∈ ops, op.isPlain = true) : (collect (runOps detail ops) b false wd d t).NM := by
+  obtain ⟨h1, h2⟩ := collect_plain_NM (runOps detail ops) b wd d t (fun hb => runOps_NM detail ops (h hb))
+  exact ⟨h1, h2⟩
+
+theorem wrapOpsOf_plain (k : WrapKind) (detail : Bool) (ct : Str) (hf : (wrapOpsOf k detail ct).2.2 = false) :
+    ∀ op ∈ (wrapOpsOf k detail ct).1, op.isPlain = true := by
+  cases k with
+  | withHint h => intro op hop; cases detail <;> simp [wrapOpsOf, wrapScript] at hop; rcases hop with rfl | rfl <;> rfl
+  | withDetail h => intro op hop; cases detail <;> simp [wrapOpsOf, wrapScript] at hop; rcases hop with rfl | rfl <;> rfl
+  | pkgWithMessage m => intro op hop; simp only [wrapOpsOf, simpleWrapOps] at hop; split at hop <;> simp at hop; subst hop; rfl
+  | pkgWithStack st => intro op hop; simp only [wrapOpsOf, simpleWrapOps] at hop; split at hop <;> simp at hop; subst hop; rfl
+  | fmtWrapError m => intro op hop; simp only [wrapOpsOf, simpleWrapOps] at hop; split at hop <;> simp at hop; subst hop; rfl
+  | user u msg => intro op hop; simp only [wrapOpsOf, simpleWrapOps] at hop; split at hop <;> simp at hop; subst hop; rfl
+  | syscallError m => simp [wrapOpsOf] at hf
+  | pathError op path => simp [wrapOpsOf] at hf
+  | linkError op a b => simp [wrapOpsOf] at hf
+  | withPrefix p => simp [wrapOpsOf, wrapScript] at hf
+  | withNewMessage m => simp [wrapOpsOf, wrapScript] at hf
+  | withStack st => simp [wrapOpsOf, wrapScript] at hf
+  | withIssueLink u dd => simp [wrapOpsOf, wrapScript] at hf
+  | withTelemetry ks => simp [wrapOpsOf, wrapScript] at hf
+  | withDomain dd => simp [wrapOpsOf, wrapScript] at hf
+  | withContext t ks r => simp [wrapOpsOf, wrapScript] at hf
+  | withAssertionFailure => simp [wrapOpsOf, wrapScript] at hf
+  | withSafeDetails l => simp [wrapOpsOf, wrapScript] at hf
+  | withMark m t => simp [wrapOpsOf, wrapScript] at hf
+  | withHTTPCode n => simp [wrapOpsOf, wrapScript] at hf
+  | withGrpcCode n => simp [wrapOpsOf, wrapScript] at hf
+  | opaqueWrapper p dd mt hid => simp [wrapOpsOf, wrapScript] at hf
+
+theorem mem_single_NM {en x : Entry} (h : x.NM) (hen : en ∈ [x]) : en.NM := by
+  simp at hen; subst hen; exact h
+
+theorem markElided_NM (l : List Entry) (h : ∀ en ∈ l, en.NM) : ∀ en ∈ markElided l, en.NM := by
+  intro en hen
+  simp only [markElided, List.mem_map] at hen
+  obtain ⟨e0, h0, rfl⟩ := hen
+  exact ⟨(h e0 h0).head, (h e0 h0).details⟩
+
+theorem withStackOf_NM (en : Entry) (ls : Stack) (st : Option Stack) (h : en.NM) : (withStackOf en ls st).1.NM := by
+  unfold withStackOf; split <;> exact ⟨h.head, h.details⟩
+
+theorem ents_leaf_NM (detail : Bool) (id : Ident) (k : LeafKind) (o wd : Bool) (d : Nat) (ls : Stack) :
+    ∀ en ∈ (ents false detail (.leaf id k) o wd d ls).1, en.NM := by
+  unfold ents
+  simp only []
+  split
+  · intro en hen; exact mem_single_NM (entry_NM detail _ true _ _ _ (by simp)) hen
+  · split
+    · split
+      · intro en hen
+        exact mem_single_NM (entry_NM detail _ false _ _ _ (fun _ op hop => by obtain ⟨a, _, rfl⟩ := List.mem_map.mp hop; rfl)) hen
+      · intro en hen
+        exact mem_single_NM (withStackOf_NM _ _ _ (entry_NM detail _ false _ _ _ (fun _ op hop => by simp at hop; subst hop; rfl))) hen
+    · split
+      · intro en hen; exact mem_single_NM (entry_NM detail _ true _ _ _ (by simp)) hen
+      · split
+        · intro en hen; exact mem_single_NM (entry_NM detail _ true _ _ _ (by simp)) hen
+        · intro en hen
+          exact mem_single_NM (entry_NM detail _ false _ _ _ (fun _ op hop => by split at hop <;> simp at hop; subst hop; rfl)) hen
+
+mutual
+/-- in plain mode no entry holds a marker token -/
+theorem ents_NM : (e : Err) → ∀ (detail o wd : Bool) (d : Nat) (ls : Stack), ∀ en ∈ (ents false detail e o wd d ls).1, en.NM
+  | .leaf id k, detail, o, wd, d, ls => ents_leaf_NM detail id k o wd d ls
+  | .barrier id m hd, detail, o, wd, d, ls => by
+    unfold ents
+    intro en hen
+    exact mem_single_NM (entry_NM detail _ true _ _ _ (by simp)) hen
+  | .wrap id k c, detail, o, wd, d, ls => by
+    have ih := ents_NM c detail false wd (d + 1) ls
+    unfold ents
+    simp only []
+    intro en hen
+    rcases List.mem_append.mp hen with h1 | h1
+    · split at h1
+      · exact markElided_NM _ ih en h1
+      · exact ih en h1
+    · refine mem_single_NM (withStackOf_NM _ _ _ (entry_NM detail _ _ _ _ _ ?_)) h1
+      intro hb
+      exact wrapOpsOf_plain k detail (errText c) hb
+  | .second id c s, detail, o, wd, d, ls => by
+    have ih := ents_NM c detail false wd (d + 1) ls
+    unfold ents
+    simp only []
+    intro en hen
+    rcases List.mem_append.mp hen with h1 | h1
+    · exact ih en h1
+    · exact mem_single_NM (entry_NM detail _ true _ _ _ (by simp)) h1
+  | .multi id k cs, detail, o, wd, d, ls => by
+    have ih := entsL_NM cs detail (d + 1) ls
+    unfold ents
+    simp only []
+    split
+    · intro en hen
+      rcases List.mem_append.mp hen with h1 | h1
+      · exact markElided_NM _ ih en h1
+      · exact mem_single_NM (entry_NM detail _ true _ _ _ (by simp)) h1
+    · intro en hen
+      rcases List.mem_append.mp hen with h1 | h1
+      · exact markElided_NM _ ih en h1
+      · exact mem_single_NM (entry_NM detail _ true _ _ _ (by simp)) h1
+    · intro en hen
+      rcases List.mem_append.mp hen with h1 | h1
+      · exact markElided_NM _ ih en h1
+      · exact mem_single_NM (entry_NM detail _ false _ _ _ (fun _ op hop => by split at hop <;> simp at hop; subst hop; rfl)) h1
+theorem entsL_NM : (es : List Err) → ∀ (detail : Bool) (d : Nat) (ls : Stack), ∀ en ∈ (entsL false detail es d ls).1, en.NM
+  | [], _, _, _ => by intro en hen; simp [entsL] at hen
+  | e :: r, detail, d, ls => by
+    unfold entsL
+    simp only []
+    intro en hen
+    rcases List.mem_append.mp hen with h1 | h1
+    · exact ents_NM e detail false true d ls en h1
+    · exact entsL_NM r detail d _ en h1
+end
+
+theorem singleLine_plain_NM (l : List Entry) (h : ∀ en ∈ l, en.NM) : NoMarkers (singleLine false l) := by
+  rw [singleLine_eq_foldl]
+  have : ∀ (m : List Entry) (acc : Toks), NoMarkers acc → (∀ en ∈ m, en.NM) → NoMarkers (m.foldl slStep acc) := by
+    intro m
+    induction m with
+    | nil => intro acc ha _; exact ha
+    | cons en r ih =>
+      intro acc ha hm
+      apply ih _ _ (fun x hx => hm x (by simp [hx]))
+      have hen := hm en (by simp)
+      unfold slStep
+      split
+      · exact ha
+      · have h1 : NoMarkers (if acc ≠ [] && en.head ≠ [] then acc ++ colonSpT else acc) := by
+          split
+          · exact NoMarkers_append ha (NoMarkers_bytesT _)
+          · exact ha
+        simp only []
+        split
+        · exact h1
+        · exact NoMarkers_append h1 (by simp [escIfNeeded]; exact hen.head)
+  exact this _ [] NoMarkers_nil (fun en hen => h en (by simpa using hen))
+
+/-- C09, the core: for every error over regular text, `%v` / `%s` (the one-line rendering in
+    plain mode) is exactly the Error() text -/
+theorem render_v_eq_errText (e : Err) (h : RegE e) : render false false e = errText e := by
+  have hv := v_text e h true false 0 []
+  have hnm := singleLine_plain_NM _ (ents_NM e false true false 0 [])
+  unfold render renderT finish
+  simp only [Bool.false_eq_true, if_false]
+  rw [unlex_noMarkers _ hnm, stripT_singleLine _ hv.good, hv.txt]
+
+end ErrModel
